@@ -15,6 +15,7 @@ OPAQUE = ["FirstValid", "Amount", "Fee", "LastValid"]
 CMP = ["<", "<=", ">", ">=", "==", "!="]
 
 EXCLUDED_COUNT = {"n": 0}
+NAME_POOL = ["f", "ff", "xf", "g", "fg", "xfg", "even", "is_even", "check_is_even", "n__", "sub", "retsub_", "b_"]
 
 
 @st.composite
@@ -52,6 +53,9 @@ def layout_program(draw, structured: bool = True, max_slots: int = 10, max_subs:
     if not structured and can_call:
         nsubs = draw(st.integers(0, 2))
     sub_names = [f"sub{k}" for k in range(nsubs)]
+    if nsubs and draw(st.booleans()):
+        # hand-written names, several of them prefixes / suffixes / substrings of one another
+        sub_names = draw(st.lists(st.sampled_from(NAME_POOL), min_size=nsubs, max_size=nsubs, unique=True))
 
     # regions: list of (name, nslots)
     regions = [("main", draw(st.integers(1, max_slots)))]
